@@ -44,6 +44,47 @@ pub fn gen(prop: &str, scen: &str, _k: u64, seed: u64, tier: &str) -> Case {
             case.input.p1 = *r_in.pick(&[1u64, 7, 64, 777, 1000]);
             case.wops = if r_ops.pct(60) { vec![] } else { vec![simcore::case::WOp::W(usize::MAX), simcore::case::WOp::F] };
         }
+        "oob.movewin" => {
+            // window moves without slack: dictionary sizes that are not multiples of the
+            // 64-byte move alignment, data whose matches sit at the largest distance the
+            // dictionary allows (period = dictionary size, give or take a byte), short matches
+            // (lazy matching compares p with p + 1 all the time), input delivered in pieces so
+            // that the encoder runs out of input at many different positions, several window
+            // moves per run. The history a match reaches back to must still be in the buffer
+            // after every move.
+            optgen::random_format(&mut r_opt, &mut case, &["lzma", "lzma", "lzip", "lzma2", "xz"], 10000);
+            case.opt.dict = match r_opt.below(4) {
+                0 => 4096 + r_opt.range(0, 600) as u32,
+                1 => 65536 + r_opt.range(0, 300) as u32,
+                // the window buffer is dict * 1.5 + constants and moves are aligned to 64 bytes:
+                // for dict = 124 or 125 (mod 128) a move has no slack at all
+                2 => *r_opt.pick(&[4096u32, 8192, 65536]) + 128 * r_opt.range(0, 6) as u32 + 124 + r_opt.below(2) as u32,
+                _ => 4096 + 4 * r_opt.range(0, 200) as u32,
+            };
+            if r_opt.pct(70) {
+                case.opt.mode = 0;
+            }
+            case.opt.preset = None;
+            case.opt.unit = None;
+            case.opt.filters.clear();
+            case.opt.nice = *r_opt.pick(&[8u32, 16, 32, 64, 273]);
+            if case.opt.depth > 8 {
+                case.opt.depth = 8;
+            }
+            let len = r_in.urange(300_000, if big { 1_400_000 } else { 800_000 });
+            case.input = InputSpec::new("mutperiod", len, r_in.next_u64());
+            let d = case.opt.dict as u64;
+            case.input.p1 = *r_in.pick(&[d, d, d, d - 1, d + 1, d / 2 + 1]);
+            case.input.p2 = *r_in.pick(&[6u64, 12, 25, 60]);
+            // pieces of all sizes, so that the encoder runs out of input at many positions
+            let mut left = len;
+            while left > 0 {
+                let hi = *r_ops.pick(&[700usize, 9000, 70_000]);
+                let k = r_ops.urange(1, hi).min(left);
+                case.wops.push(simcore::case::WOp::W(k));
+                left -= k;
+            }
+        }
         "oob.encode" => {
             optgen::random_format(&mut r_opt, &mut case, &["lzma", "lzma2", "lzma2", "xz", "lzip"], 10000);
             case.opt.dict = *r_opt.pick(&[4096u32, 4096, 4097, 8192, 65536]);
